@@ -562,6 +562,25 @@ impl Monitors {
                 }
             }
         }
+        // at most one Rejoin per verdict about the identity in use at that point of the batch
+        if n_rejoin > 0 {
+            let mut cur = pre.id;
+            let mut allowed = 0u64;
+            for m in &told.updates {
+                if *m.id() == cur && (m.state() == State::Down || m.state() == State::Suspect) {
+                    allowed += 1;
+                    if let Some(next) = cur.renewed() {
+                        cur = next;
+                    }
+                }
+            }
+            if told.header.as_ref().is_some_and(|h| matches!(h.message, Message::TurnUndead)) {
+                allowed += 1;
+            }
+            if n_rejoin > allowed {
+                v(out, "C08", "C08/more-rejoins-than-verdicts", at, format!("{n_rejoin} Rejoin notifications while handling {}, which holds {allowed} verdict(s) about the identity in use at that point", rec.input.kind()));
+            }
+        }
         if (n_defunct + n_rejoin) > 0 && !potential {
             v(out, "C08", "C08/defunct-or-rejoin-without-trigger", at, format!("{} Defunct / {} Rejoin notified while handling {} with no Down/TurnUndead/unrefutable suspicion about this instance", n_defunct, n_rejoin, rec.input.kind()));
         }
